@@ -6,7 +6,7 @@
    one of them -- ever renders to a value; with termination and the no-panic theorem: it
    renders to an error from some fuel on. *)
 From RV Require Import Model.Interp Proofs.ValueFacts Proofs.MappingFacts Proofs.WfFacts Proofs.InterpFacts
-     Proofs.Mono Proofs.NoPanic Proofs.Termination Proofs.CycleFacts.
+     Proofs.StateIndep Proofs.Mono Proofs.NoPanic Proofs.Termination Proofs.CycleFacts.
 
 Definition not_ok {A} (r : res A) : Prop := match r with Ok _ => False | _ => True end.
 
@@ -15,15 +15,35 @@ Section General.
   Hypothesis Hroot : wf (VMap root).
   Variable ks : list string.
 
+  (** a reference whose path -- a literal, or assembled from nested references -- is a path of the set *)
+  Definition cyc_parts (parts : list token) : Prop :=
+    exists f0 st0 path, token_slice f0 root parts st0 = Ok path /\ In path ks.
+
   Definition cyc_ref (t : token) : Prop :=
-    match t with TRef [TLit k] => In k ks | _ => False end.
+    match t with TRef parts => cyc_parts parts | _ => False end.
 
   Definition forces_tok (t : token) : Prop :=
     match t with
-    | TRef [TLit k] => In k ks
+    | TRef parts => cyc_parts parts
     | TComb ts => Exists cyc_ref ts
     | _ => False
     end.
+
+  Lemma cyc_parts_lit k : In k ks -> cyc_parts [TLit k].
+  Proof.
+    intros Hk. exists 2, st0, k. split; [|exact Hk]. cbn [token_slice slice_loop].
+    cbn [token_resolve bind interp_while_str is_string is_mapping is_sequence orb raw_string]. now rewrite str_app_nil_r.
+  Qed.
+
+  (** the assembled path does not depend on fuel or state *)
+  Lemma slice_unique parts f1 s1 p1 f2 s2 p2 :
+    token_slice f1 root parts s1 = Ok p1 -> token_slice f2 root parts s2 = Ok p2 -> p1 = p2.
+  Proof.
+    intros H1 H2.
+    assert (G1 : token_slice (Nat.max f1 f2) root parts s1 = Ok p1) by (apply (fm_slice root f1 _ (Nat.le_max_l _ _) parts s1 _ H1); discriminate).
+    assert (G2 : token_slice (Nat.max f1 f2) root parts s2 = Ok p2) by (apply (fm_slice root f2 _ (Nat.le_max_r _ _) parts s2 _ H2); discriminate).
+    exact (proj1 (proj2 (proj2 (proj2 (proj2 (indep_facts root (Nat.max f1 f2)))))) parts s1 s2 p1 p2 G1 G2).
+  Qed.
 
   Fixpoint forces (v : value) : Prop :=
     match v with
@@ -125,29 +145,26 @@ Section General.
     assert (IHi : forall f, f < F -> forall v st, forces v -> not_ok (interp f root v st)) by (intros f Hf; exact (proj1 (IH f Hf))).
     assert (IHr : forall f, f < F -> forall t st, forces_tok t -> not_ok (token_render f root t st)) by (intros f Hf; exact (proj2 (IH f Hf))).
     (* a reference into the set, resolved: either not a value, or a value that still forces *)
-    assert (Hres : forall f, f < F -> forall k st, In k ks ->
-              match token_resolve f root (TRef [TLit k]) st with
+    assert (Hres : forall f, f < F -> forall parts st, cyc_parts parts ->
+              match token_resolve f root (TRef parts) st with
               | Ok (v, _) => forces v /\ is_string v = false /\ is_vlist v = false
               | _ => True
               end).
-    { intros f Hf k st Hk. destruct (Hcyc k Hk) as (k0 & segs & v0 & v' & Hsplit & Hget & Hraw & Hfv).
+    { intros f Hf parts st (f0 & s0 & p0 & Hp0 & Hk).
       destruct f as [|f2]; [exact I|]. cbn [token_resolve].
       destruct (Nat.ltb RESOLVE_MAX_DEPTH (depth (with_depth st (S (depth st))))); [exact I|].
-      destruct (token_slice f2 root [TLit k] (with_depth st (S (depth st)))) as [path| | |] eqn:Esl; cbn [bind]; try exact I.
-      assert (path = k).
-      { destruct f2 as [|[|f4]]; try discriminate. cbn [token_slice slice_loop] in Esl.
-        cbn [token_resolve bind interp_while_str is_string is_mapping is_sequence orb raw_string] in Esl.
-        injection Esl as <-. apply str_app_nil_r. }
-      subst path.
-      destruct (mem k (seen (with_depth st (S (depth st))))); [exact I|].
+      destruct (token_slice f2 root parts (with_depth st (S (depth st)))) as [k| | |] eqn:Esl; cbn [bind]; try exact I.
+      assert (k = p0) by exact (slice_unique parts _ _ _ _ _ _ Esl Hp0). subst k.
+      destruct (Hcyc p0 Hk) as (k0 & segs & v0 & v' & Hsplit & Hget & Hraw & Hfv).
+      destruct (mem p0 (seen (with_depth st (S (depth st))))); [exact I|].
       rewrite Hsplit, Hget.
-      pose proof (walk_raw f2 k segs v0 (add_seen (with_depth st (S (depth st))) k) [k0] v' Hraw) as Hwalk.
-      destruct (walk_loop (interp_sov f2 root) k segs v0 (add_seen (with_depth st (S (depth st))) k) [k0]) as [[w st3]| | |]; cbn [bind]; try exact I.
+      pose proof (walk_raw f2 p0 segs v0 (add_seen (with_depth st (S (depth st))) p0) [k0] v' Hraw) as Hwalk.
+      destruct (walk_loop (interp_sov f2 root) p0 segs v0 (add_seen (with_depth st (S (depth st))) p0) [k0]) as [[w st3]| | |]; cbn [bind]; try exact I.
       destruct Hwalk as [-> ->].
       destruct f2 as [|f3]; [exact I|]. cbn [interp_while].
       destruct (is_string v' || is_vlist v') eqn:Eb.
-      - pose proof (IHi f3 ltac:(lia) v' (add_seen (with_depth st (S (depth st))) k) Hfv) as Hn.
-        destruct (interp f3 root v' (add_seen (with_depth st (S (depth st))) k)) as [[c sx]| | |]; cbn [bind]; try exact I. contradiction.
+      - pose proof (IHi f3 ltac:(lia) v' (add_seen (with_depth st (S (depth st))) p0) Hfv) as Hn.
+        destruct (interp f3 root v' (add_seen (with_depth st (S (depth st))) p0)) as [[c sx]| | |]; cbn [bind]; try exact I. contradiction.
       - apply Bool.orb_false_elim in Eb as [Es El]. split; [exact Hfv | split; assumption]. }
     split.
     - (* values *)
@@ -168,9 +185,8 @@ Section General.
       intros t st Ht. destruct F as [|f1]; [exact I|]. cbn [token_render].
       destruct t as [s | parts | ts]; [destruct Ht | |].
       + (* a whole-value reference into the set *)
-        destruct parts as [|[k| |] [|]]; try (destruct Ht).
-        pose proof (Hres f1 ltac:(lia) k st Ht) as Hr.
-        destruct (token_resolve f1 root (TRef [TLit k]) st) as [[v s1]| | |]; cbn [bind]; try exact I.
+        pose proof (Hres f1 ltac:(lia) parts st Ht) as Hr.
+        destruct (token_resolve f1 root (TRef parts) st) as [[v s1]| | |]; cbn [bind]; try exact I.
         destruct Hr as (Hfv & _). apply IHi; [lia | exact Hfv].
       + (* text with a reference into the set *)
         assert (G : not_ok (token_resolve f1 root (TComb ts) st)).
@@ -180,8 +196,8 @@ Section General.
             clear - Ht Hres IHi. induction ts as [|t ts IHts]; [inversion Ht|]. cbn [slice_loop].
             destruct (token_resolve f3 root t st) as [[v s1]| | |] eqn:Er; cbn [bind]; try exact I.
             inversion Ht as [? ? Hc | ? ? Hl]; subst.
-            - destruct t as [s | [|[k| |] [|]] | ts']; try (destruct Hc).
-              pose proof (Hres f3 ltac:(lia) k st Hc) as Hr. rewrite Er in Hr. destruct Hr as (Hfv & Hs & Hl).
+            - destruct t as [s | parts | ts']; try (exfalso; exact Hc).
+              pose proof (Hres f3 ltac:(lia) parts st Hc) as Hr. rewrite Er in Hr. destruct Hr as (Hfv & Hs & Hl).
               destruct f3 as [|f4]; [discriminate|]. cbn [interp_while_str]. rewrite Hs. cbn [bind].
               destruct (is_mapping v || is_sequence v) eqn:Ec.
               + pose proof (IHi (S f4) ltac:(lia) v s1 Hfv) as Hn.
